@@ -273,7 +273,8 @@ def run_inproc(ws: Workspace,
                 open(err_path, 'w+', encoding='utf-8', newline='') as fe:
             try:
                 mp = new_main_program(mem_buff_size)
-                signal.setitimer(signal.ITIMER_REAL, timeout_s)
+                # repeating: an alarm that fires inside a GC callback / __del__ is swallowed by the interpreter
+                signal.setitimer(signal.ITIMER_REAL, timeout_s, 0.25)
                 try:
                     res.exit_code = mp.execute(list(argv), StdOutputFiles(fo, fe))
                 finally:
